@@ -31,6 +31,10 @@ def run(tier):
     for (n, _), e in zip(emits, res):
         out, st = lk.drive(c, "schedules", n, infile=e)
         lk.validate(c, out, FLAGS, n)
+        if n == "lockB":
+            # the same schedules with the Redis backend (polling waiters, non-atomic Create) behind the gates
+            out, st = lk.drive(c, "schedules", n + "-redis", infile=e, variant="redis", workers=64)
+            lk.validate(c, out, FLAGS, n + "-redis")
     out, _ = lk.drive(c, "random", "random", n=nrand)
     lk.validate(c, out, FLAGS, "random")
     out, _ = lk.drive(c, "stress", "stress-inmem", n=10 if c.quick() else 100)
